@@ -89,16 +89,20 @@ func (d *Disk) writeFile(name string, data []byte, _ os.FileMode) error {
 		w.mu.Lock()
 		d.files[name] = []byte{}
 		w.mu.Unlock()
+		d.ev("trunc", full, nil, true)
 		d.ev("write-fail", full, nil, false)
+		w.fault("disk:enospc", full)
 		return &fs.PathError{Op: "write", Path: name, Err: syscall.ENOSPC}
 	case "eio":
 		d.ev("write-fail", full, nil, false)
+		w.fault("disk:eio", full)
 		return &fs.PathError{Op: "open", Path: name, Err: syscall.EIO}
 	case "short":
 		w.mu.Lock()
 		d.files[name] = append([]byte{}, data[:len(data)/2]...)
 		w.mu.Unlock()
 		d.ev("write-short", full, data[:len(data)/2], false)
+		w.fault("disk:short", full)
 		return &fs.PathError{Op: "write", Path: name, Err: errors.New("short write")}
 	}
 	w.mu.Lock()
